@@ -121,4 +121,25 @@ PROPS = {
                          "the query-window clause (grouped or time-ranged queries never return periods that ended more than one resolution before now - retention) is covered with C07's window theorems and the query engine"],
         "assumptions": ["virtual clock (VirtualTime): now = maximum accepted timestamp, monotone"],
     },
+    "C17": {
+        "lean": ["ZenoModel.Props.C17"],
+        "theorems": ["union_covers", "union_of_one", "orMem_iff", "mapping_is_projection", "no_cross_talk",
+                     "coalesced_spec", "coalesced_spec_at", "solo_spec", "coalesced_equals_solo_stream",
+                     "coalesced_equals_solo", "stopped_iteration_gets_nothing_more", "receives_prefix",
+                     "unfinished_received_all", "includeMem_or_leaks", "blank_rows_differ",
+                     "d8_error_aborts_everyone", "d3_d8_rows_lost_silently", "d8_deadline_inherited",
+                     "d8_finished_query_gets_foreign_error", "d15_blank_row_ends_solo_scan"],
+        "engines": [
+            # n = number of generated tables, each with one concurrent batch of 2-8 queries + the same queries alone
+            {"name": "coalesce", "n_quick": 40, "n_thorough": 2000, "n_search": 48,
+             "timeout_quick": 300, "timeout_thorough": 1500},
+        ],
+        "trusted_base": ["column values (encoding.Sequence) are opaque content ids; what a scan yields for a table (Table.disk / Table.fresh, merging of file and memstore rows) is M-STORE's business and is taken from solo full-field scans of the real table",
+                         "time: a deadline is an expiry index into the shared scan (`some 0` = already expired, none = no deadline); only none / expired / far deadlines are compared exactly, short ones are sampled",
+                         "goroutine scheduling, channel hand-off in table.iterate / coalesceIteration and which batches form are observed through the coalesce.* verif events, not modelled; Go's random map order over remainingIterations is irrelevant after the D8 fix (coalesced_spec: the result is a List.map over the iterations)",
+                         "the SQL pipeline above the table scan (group / flatten / sort / limit) is not part of this model: SQL queries enter the model batch only with the fields and includeMemStore they ask of the table; their results are compared concurrent vs alone (property oracle)",
+                         "context cancellation other than deadlines is ignored by the code (core.Guard only looks at the deadline) and by the model"],
+        "assumptions": ["every iteration's field list is duplicate-free (indexOfOutField = first match; the planner's sourceForTable and table.fields satisfy it)",
+                        "coalesced_equals_solo: the query's includeMemStore equals the OR over the batch (otherwise known finding C17-includeMemStore-or) and no file row is blank for it (Covers; always true for the table's own fields on an unaltered table; rows without any value are invisible to every consumer in the repo)"],
+    },
 }
